@@ -33,6 +33,10 @@ claim("C08", "static analysis: constant-argument rule on every ParseInt(NameID,1
       "Decides: every parse of an agent's NameID is wide enough for all 32-bit ids; in PivotAddJob each layer is encrypted with the key/IV of the agent whose id is packed as that layer's destination; in the relay arm the agent returned by AgentInstance(inner header id) is nil-checked, supplies the decryption key and is the receiver of the re-entered TaskDispatch (so C05's gate applies to the child's tasks), over a parser built from ParseBytes() of the frame. Not decided: the nested encode/decode round trip as values for depth <= 5.",
       TRUST, "DESIGN.md §3 R8, §4 C08")
 
+claim("C10", "static analysis: SQL-subset reader over the string constants of pkg/db compared with the type-checked Exec/Scan call sites (counts, positional name agreement, SQLite affinity rules), restore filter and field-copy def-use, dominance of persist-before-acknowledge, id width",
+      "Decides: for every statement of pkg/db the column, placeholder and bound-argument counts agree and the i-th bound value / Scan destination is the field named like the i-th column; insert, update and restore of TS_Agents use the same column set; every column that carries a Go string has TEXT/BLOB affinity under SQLite's documented rules; the restore query filters WHERE Active = 1 and copies every scanned column into the like-named agent field; in handleDemonAgent Teamserver.AgentAdd (which calls DB.AgentAdd on every path) dominates the acknowledgement write; agent ids are parsed with 64 bits. Not decided: crash points (SQLite's journal), behaviour when DB.AgentAdd returns an error (only logged), listener configuration JSON round trip.",
+      TRUST, "DESIGN.md §3 R9, §4 C10")
+
 for i in range(1, 21):
     pid = "C%02d" % i
     if pid not in CLAIMS and pid not in NA:
